@@ -16,7 +16,7 @@
    Scheduling assumption of the last two (gstep true): a select with a ready ctx.Done arm takes it. *)
 From Coq Require Import List Arith Bool Lia.
 From DosVerif Require Import Models.Pipes Models.PipesCheck Proofs.PipesProofs Proofs.PipesCheckProofs.
-From DosVerif Require Import Gen.PipeNets Models.PipeNetsOld.
+From DosVerif Require Import Gen.PipeNets Models.PipeNetsOld Proofs.PipesReplicate.
 Import ListNotations.
 
 (* the networks the translator produced from the current sources were translated completely and
@@ -74,6 +74,32 @@ Proof.
   - apply (terminates_after_cancel N Hwf ctr0 s Hr).
 Qed.
 Print Assumptions C14_general.
+
+(* sendToMembers / genDealsAndSend start one retry goroutine per group member, in a loop; the
+   translator emits one of them.  The theorems hold for ANY number of them: adding k copies of an
+   inert goroutine (no channel, WaitGroup or cancel operation, every select with a ctx.Done arm) to a
+   network that satisfies the conditions gives a network that satisfies them *)
+Theorem C14_any_number_of_retry_goroutines :
+  forall N, In N (map fst all_nets) -> forall p k, inertb (rkbound N) p = true ->
+  forall ctr0 s, reach (extend N p k) ctr0 s ->
+  ~ bad (extend N p k) s /\
+  (cancelled s = true -> stuck (extend N p k) s -> final (extend N p k) s) /\
+  (cancelled s = true -> Acc (fun b a => pstep (extend N p k) a b) s).
+Proof.
+  intros N HN p k Hp ctr0 s Hr.
+  pose proof (extend_wf N p k (current_nets_wf N HN) (inertb_sound _ _ Hp)) as Hwf.
+  split; [|split].
+  - apply (no_panic _ Hwf ctr0 s Hr).
+  - apply (stuck_is_final _ Hwf ctr0 s Hr).
+  - apply (terminates_after_cancel _ Hwf ctr0 s Hr).
+Qed.
+Print Assumptions C14_any_number_of_retry_goroutines.
+
+(* ... and the key-generation network does contain such goroutines *)
+Example C14_retry_goroutines_are_inert :
+  (2 <= length (filter (inertb (rkbound net_grouping)) (procs net_grouping)))%nat.
+Proof. vm_compute. repeat constructor. Qed.
+Print Assumptions C14_retry_goroutines_are_inert.
 
 (* the networks translated from the sources before the repairs are all rejected *)
 Example C14_old_rejected :
